@@ -59,6 +59,14 @@ T["T8"] = dict(
     objectives=[{"DM_B": 1}])
 
 
+T["T9"] = dict(   # a forced drain competing with the objective (knocking it out raises the optimum)
+    mets={"A_e": "e", "A": "c", "B": "c"},
+    rxns=[("EX_A", {"A_e": -1}, (-10, 0), ""), ("T", {"A_e": -1, "A": 1}, (0, 10), ""),
+          ("R1", {"A": -1, "B": 1}, (0, 10), "g1"), ("DRAIN", {"A": -1}, (2, 10), "g2"),
+          ("DM_B", {"B": -1}, (0, 10), "")],
+    objectives=[{"DM_B": 1}])
+
+
 def build(tid, coef=None):
     """build the template through the public API (add_metabolites on detached reactions,
     add_reactions).  coef: optional {(rid, mid): value} overriding stoichiometry."""
